@@ -240,6 +240,53 @@ static size_t safec_out_rev(out_fct_type out, char *buffer, size_t idx,
     return idx;
 }
 
+// like safec_out_rev, with `zeros` more '0' characters between the last `npre`
+// characters of buf (sign and prefix, printed first) and the digits: leading
+// zeros that had no room in the digit buffer
+static size_t safec_out_rev_zeros(out_fct_type out, char *buffer, size_t idx,
+                                  size_t maxlen, const char *buf, size_t len,
+                                  size_t npre, size_t zeros,
+                                  unsigned int width, unsigned int flags) {
+    const size_t start_idx = idx;
+    int rc;
+
+    // pad spaces up to given width
+    if (!(flags & FLAGS_LEFT) && !(flags & FLAGS_ZEROPAD)) {
+        for (size_t i = len + zeros; i < width; i++) {
+            rc = out(' ', buffer, idx++, maxlen);
+            if (unlikely(rc < 0))
+                return rc;
+        }
+    }
+    // sign and prefix
+    while (npre && len) {
+        rc = out(buf[--len], buffer, idx++, maxlen);
+        if (unlikely(rc < 0))
+            return rc;
+        npre--;
+    }
+    while (zeros--) {
+        rc = out('0', buffer, idx++, maxlen);
+        if (unlikely(rc < 0))
+            return rc;
+    }
+    // reverse string
+    while (len) {
+        rc = out(buf[--len], buffer, idx++, maxlen);
+        if (unlikely(rc < 0))
+            return rc;
+    }
+    // append pad spaces up to given width
+    if (flags & FLAGS_LEFT) {
+        while (idx - start_idx < width) {
+            rc = out(' ', buffer, idx++, maxlen);
+            if (unlikely(rc < 0))
+                return rc;
+        }
+    }
+    return idx;
+}
+
 // internal itoa format
 static size_t safec_ntoa_format(out_fct_type out, const char *funcname,
                                 char *buffer, size_t idx, size_t maxlen,
@@ -247,9 +294,24 @@ static size_t safec_ntoa_format(out_fct_type out, const char *funcname,
                                 unsigned int base, unsigned int prec,
                                 unsigned int width, unsigned int flags) {
     const size_t digits = len; // the digits of the value itself
+    // zeros are collected in buf only up to here, so that prefix and sign
+    // always find room; the others are counted and emitted directly
+    const size_t zmax = PRINTF_NTOA_BUFFER_SIZE - 4U;
+    size_t zeros = 0U;
+    size_t lenz;
+
+    if (width > 2147483614) {
+        char msg[80];
+        snprintf(msg, sizeof msg, "%s: width exceeds max", funcname);
+        invoke_safe_str_constraint_handler(msg, buf, ESLEMAX);
+        return -ESLEMAX;
+    }
     // the precision is the minimum number of digits, left-justified or not
-    while ((len < prec) && (len < PRINTF_NTOA_BUFFER_SIZE)) {
+    while ((len < prec) && (len < zmax)) {
         buf[len++] = '0';
+    }
+    if (prec > len) {
+        zeros = prec - len;
     }
     // pad leading zeros
     if (!(flags & FLAGS_LEFT)) {
@@ -257,9 +319,12 @@ static size_t safec_ntoa_format(out_fct_type out, const char *funcname,
             (negative || (flags & (FLAGS_PLUS | FLAGS_SPACE)))) {
             width--;
         }
-        while ((flags & FLAGS_ZEROPAD) && (len < width) &&
-               (len < PRINTF_NTOA_BUFFER_SIZE)) {
+        while ((flags & FLAGS_ZEROPAD) && (len + zeros < width) &&
+               (len < zmax)) {
             buf[len++] = '0';
+        }
+        if ((flags & FLAGS_ZEROPAD) && (len + zeros < width)) {
+            zeros = width - len;
         }
     }
 
@@ -267,13 +332,23 @@ static size_t safec_ntoa_format(out_fct_type out, const char *funcname,
     if (flags & FLAGS_HASH) {
         // make room for the prefix among the padding zeros, never among the
         // digits of the value
-        if (!(flags & FLAGS_PRECISION) && len > digits &&
-            ((len == prec) || (len == width))) {
-            len--;
-            if (len > digits && (base == 16U)) {
+        // (octal needs none: a padding zero already is the leading zero)
+        if (!(flags & FLAGS_PRECISION) && base != 8U && len + zeros > digits &&
+            ((len + zeros == prec) || (len + zeros == width))) {
+            if (zeros)
+                zeros--;
+            else
                 len--;
+            if (len + zeros > digits && (base == 16U)) {
+                if (zeros)
+                    zeros--;
+                else
+                    len--;
             }
         }
+    }
+    lenz = len; // digits and zeros end here, prefix and sign follow
+    if (flags & FLAGS_HASH) {
         if ((base == 16U) && !(flags & FLAGS_UPPERCASE) &&
             (len < PRINTF_NTOA_BUFFER_SIZE)) {
             buf[len++] = 'x';
@@ -286,7 +361,7 @@ static size_t safec_ntoa_format(out_fct_type out, const char *funcname,
         // octal: "increases the precision, if and only if necessary, to force
         // the first digit of the result to be a zero"
         if (len < PRINTF_NTOA_BUFFER_SIZE &&
-            !(base == 8U && len && buf[len - 1] == '0')) {
+            !(base == 8U && (zeros || (len && buf[len - 1] == '0')))) {
             buf[len++] = '0';
         }
     }
@@ -300,14 +375,11 @@ static size_t safec_ntoa_format(out_fct_type out, const char *funcname,
             buf[len++] = ' ';
         }
     }
-    if (width > 2147483614) {
-        char msg[80];
-        snprintf(msg, sizeof msg, "%s: width exceeds max", funcname);
-        invoke_safe_str_constraint_handler(msg, buf, ESLEMAX);
-        return -ESLEMAX;
-    }
 
-    return safec_out_rev(out, buffer, idx, maxlen, buf, len, width, flags);
+    if (!zeros)
+        return safec_out_rev(out, buffer, idx, maxlen, buf, len, width, flags);
+    return safec_out_rev_zeros(out, buffer, idx, maxlen, buf, len, len - lenz,
+                               zeros, width, flags);
 }
 
 // internal itoa for 'long' type
